@@ -88,10 +88,81 @@ def r2_comprehension_scope(ctx, F):
               "go-to-definition / hover on `x` in `[x for x in x]` answer with the loop variable", fn=f)
 
 
+# reviewed unwrap/expect sites of the language server crate: "function:what is unwrapped"
+LSP_UNWRAP_OK = {
+    "Backend::default_completion_options:RwLock::read": "lock poisoning only (another thread panicked while holding it)",
+    "Backend::get_ast:RwLock::read": "lock poisoning only",
+    "Backend::validate:RwLock::write": "lock poisoning only",
+    "Backend::did_close:RwLock::write": "lock poisoning only",
+    "Backend::get_all_exported_symbols:RwLock::read": "lock poisoning only",
+    "Backend::send_notification:Sender::send": "the connection's channel: closed only when the client is gone",
+    "Backend::send_response:Sender::send": "the connection's channel: closed only when the client is gone",
+    "server::server_with_connection:serde_json::to_value": "serialisation of the server's own capability struct",
+    "server::new_notification:serde_json::to_value": "serialisation of the server's own message",
+    "server::new_response:serde_json::to_value": "serialisation of the server's own message",
+    "Backend::find_definition:LspModule::find_definition_at_location": "segments of a Dotted definition: built with at "
+                                                                       "least two segments by find_definition_at_location",
+    "docs::get_doc_item_for_def:DefParams::unpack": "parameters of a def of a module that already parsed (unpack succeeded "
+                                                    "during parsing)",
+}
+
+
+def r4_server_unwraps(ctx, F):
+    """the server answers every request without crashing: it runs one thread, so a panic in a handler ends the session.
+    Every unwrap/expect in the LSP crate is a reviewed site whose value cannot be absent for any client input; an unwrap
+    of something the client sent (e.g. the first element of `contentChanges`) is not."""
+    from kern import reviewed
+    pc = re.compile(r"(Iterator(>)?::(next|last|nth)$|IntoIterator(>)?::into_iter$|as_ref$|Deref>::deref$|::get$|"
+                    r"::first$|::last$)")
+    n = 0
+    for f in F.fns.values():
+        if f.crate != "starlark_lsp":
+            continue
+        for c in f.calls:
+            if c.bb in f.cleanup or c.indirect or not re.search(r"(Option|Result)::<.*>::(unwrap|expect)$", c.name):
+                continue
+            n += 1
+            os_ = origins(f, c.args[0], pass_calls=pc)
+            srcs = sorted({short_fn(o[1].name) for o in os_ if o[0] == "call"}) or sorted({o[0] for o in os_})
+            who = short_fn(top_fn(F, f).qpath)
+            for src in srcs:
+                why = reviewed(F, LSP_UNWRAP_OK, who, src)
+                ctx.check(why is not None, "C19.R4", "server-unwrap:%s:%s" % (who, src), "reviewed: " + (why or ""),
+                          "`%s` unwraps a value that comes from %s and is not a reviewed site: if a client message can "
+                          "make it absent (an empty array, a missing field) the server thread panics and no later "
+                          "request is answered" % (who, src), fn=f, line=c.line)
+    ctx.floor("C19.R4", "unwrap/expect sites in the language server crate", n, 12, inventory=True)
+
+
+def r5_client_positions_arith(ctx, F):
+    """line / character numbers of a request are arbitrary u32 values: the server never feeds one into the
+    overflow-checked `Pos + u32` (or a plain checked `+`): it saturates or clamps first"""
+    n = 0
+    for f in F.fns.values():
+        if f.crate != "starlark_lsp":
+            continue
+        for c in f.calls:
+            if c.bb in f.cleanup or c.indirect or not re.search(r"codemap::Pos as std::ops::(Add|Sub)<u32>>::(add|sub)$", c.name):
+                continue
+            n += 1
+            par = [o for o in origins(f, c.args[1], pass_calls=None) if o[0] == "param"]
+            ctx.check(not par, "C19.R5", "pos-plus-client-column:" + short_fn(top_fn(F, f).qpath),
+                      "the offset added to a Pos does not come straight from a request parameter",
+                      "`%s` adds a column taken from its parameters to a Pos with the overflow-checked `+`: a request with "
+                      "character = 4294967295 panics the server (use saturating_add / clamp to the line)"
+                      % short_fn(top_fn(F, f).qpath), fn=f, line=c.line)
+    ctx.ok("C19.R5", "pos-arith-inspected", "%d `Pos +/- u32` uses in the LSP crate" % n)
+
+
 def run(ctx):
     F = ctx.facts("core")
     if any(f.crate == "starlark_lsp" for f in F.fns.values()):
+        r4_server_unwraps(ctx, F)
+        r5_client_positions_arith(ctx, F)
         r2_comprehension_scope(ctx, F)
+        # the server never indexes a code map with an editor-supplied line through a panicking accessor
+        from rules.C05 import r5_line_accessors
+        r5_line_accessors(ctx, F, rule="C19.R3", crates=("starlark_syntax", "starlark", "starlark_lsp", "starlark_bin"))
     else:
         ctx.bad("C19.R2", "anchor:starlark_lsp", "anchor-missing: the extraction does not contain the starlark_lsp crate")
     n = 0
